@@ -1705,6 +1705,7 @@ def ancestor_corpus():
 # no class bodies): this family is judged by the declarative specification below and by executing the
 # emitted Python only.
 #   body  ("fa",f) self.a<f> := 1 | ("fr",f) print(self.a<f>) | ("o",) print(0) | ("ret",) | ("rs",) raise E1()
+#         | ("fc",f,op) self.a<f> op= c   (compound assignment = a read of the field followed by a write)
 #         | ("if",B) | ("ie",B,B) | ("mt",[B..]) match with a final `_` arm | ("wh",B) | ("fo",B)
 # ------------------------------------------------------------------------------------------------
 class CtorRender:
@@ -1722,6 +1723,8 @@ class CtorRender:
             k = s[0]
             if k == "fa":
                 out.append(f"{sp}self.a{s[1]} := {s[1]}")
+            elif k == "fc":
+                out.append(f"{sp}self.a{s[1]} {s[2]}= c")
             elif k == "fr":
                 out.append(f"{sp}print(self.a{s[1]})")
             elif k == "o":
@@ -1774,6 +1777,10 @@ def ctor_spec(body, fields, abrupt=True):
             k = s[0]
             if k == "fa":
                 A = A | {s[1]}
+            elif k == "fc":                             # read, then write
+                if s[1] not in A:
+                    issues.append(("read", s[1]))
+                A = A | {s[1]}
             elif k == "fr":
                 if s[1] not in A:
                     issues.append(("read", s[1]))
@@ -1808,6 +1815,8 @@ def ctor_shape(b):
         k = s[0]
         if k in ("fa", "fr"):
             out.append(f"{k}{s[1]}")
+        elif k == "fc":
+            out.append(f"fc{s[1]}{s[2]}")
         elif k in ("o", "ret", "rs"):
             out.append(k)
         elif k == "ie":
@@ -1856,6 +1865,8 @@ CTOR_BRANCHES = [
     [("ie", [("ret",)], [("rs",)])], [("wh", [("fa", 1)])], [("fo", [("fa", 1)])],
     [("mt", [[("fa", 1)], [("fa", 1)]])], [("mt", [[("fa", 1)], [("rs",)]])], [("mt", [[("o",)], [("fa", 1)]])],
     [("fr", 1)], [("fa", 1), ("fr", 1)],
+    [("fc", 1, "+"), ("fa", 1)], [("fa", 1), ("fc", 1, "-")], [("fc", 1, "*")], [("fa", 1), ("fc", 1, "+"), ("fr", 1)],
+    [("if", [("fc", 1, "-")]), ("fa", 1)],
 ]
 
 
@@ -1872,6 +1883,17 @@ def ctor_corpus(rng, quick):
     allp = [(p + m + s_, (1,)) for m in mains for p in pre for s_ in suf]
     two = [([("fa", 2)] + m + [("fr", 2)] + s_, (1, 2)) for m in mains[:120] for s_ in suf[:2]]
     two += [(m + s_, (1, 2)) for m in mains[:60] for s_ in suf[:2]]
+    # compound assignments: every placement of a compound assignment before / after the plain one is kept
+    must = [(a + b + s_, (1,)) for op in "+-*" for a, b in
+            (([("fc", 1, op)], [("fa", 1)]), ([("fa", 1)], [("fc", 1, op)]), ([("fc", 1, op)], []),
+             ([("if", [("fa", 1)]), ("fc", 1, op)], [("fa", 1)]),
+             ([("ie", [("fa", 1)], [("fa", 1)]), ("fc", 1, op)], []),
+             ([("ie", [("fc", 1, op), ("fa", 1)], [("fa", 1)])], []),
+             ([("ie", [("fa", 1), ("fc", 1, op)], [("fa", 1)])], []),
+             ([("fo", [("fc", 1, op)])], [("fa", 1)]), ([("fa", 1), ("fo", [("fc", 1, op)])], []))
+            for s_ in ([], [("fr", 1)])]
+    must += [([("fa", 2), ("fc", 1, "+"), ("fa", 1)], (1, 2)), ([("fa", 1), ("fc", 2, "+"), ("fa", 2)], (1, 2)),
+             ([("fa", 1), ("fa", 2), ("fc", 1, "*"), ("fc", 2, "-")], (1, 2))]
     if quick:
         allp = rng.sample(allp, 1100)
         two = rng.sample(two, 150)
@@ -1894,7 +1916,7 @@ def ctor_corpus(rng, quick):
         return True
 
     seen, out = set(), []
-    for b, f in fixed + allp + two:
+    for b, f in fixed + must + allp + two:
         key = ctor_shape(b) + str(f)
         if key not in seen and wellformed(b):
             seen.add(key)
@@ -1931,7 +1953,8 @@ def run_ctor_family(ck, rep_cause, quick, variants=(0, 0xFFFF, 0x5A5A, 0x3C3C), 
     outcomes = collections.Counter()
     for (b, f, v), src, (status, msg, out) in zip(keep, py, res):
         outcomes[status] += 1
-        if ("None" in out or status == "AttributeError") and ctor_shape(b) not in flagged:
+        if ("None" in out or status == "AttributeError" or (status == "TypeError" and "NoneType" in msg)) \
+                and ctor_shape(b) not in flagged:
             flagged.add(ctor_shape(b))
             n_none += 1
             issues = ctor_spec(b, f)
@@ -1942,3 +1965,123 @@ def run_ctor_family(ck, rep_cause, quick, variants=(0, 0xFFFF, 0x5A5A, 0x3C3C), 
                       {"ctor_body": b, "fields": list(f), "variant": v, "mamba": render_ctor(b, f, v), "emitted": src})
     return {"programs": len(cases), "verdicts": dict(st), "python_runs": len(keep), "python_outcomes": dict(outcomes),
             "programs_with_unassigned_field_at_run_time": n_none}
+
+
+# ------------------------------------------------------------------------------------------------
+# lambdas as a call position (C08).  NOT part of model/Scope.v (the skeleton has no anonymous functions):
+# judged by the lexical guard specification below and by executing the emitted Python only.
+# A case = (hierarchy, R raised by f1, position of the lambda, protection (kind, A)).
+# ------------------------------------------------------------------------------------------------
+LAMBDA_POSITIONS = ["arg", "init", "nested", "arith", "branch", "method", "loop", "toplevel"]
+LAMBDA_PROTECTIONS = ["none", "declared", "handled", "handled-outer"]
+
+
+def render_lambda(tb, R, pos, prot, A):
+    """f1 raises R; the function (or method) g contains a lambda whose body calls f1."""
+    lam = "\\y: Int => f1(y)"
+    dec = f" raise [{cname(A)}]" if prot == "declared" else ""
+    call = {"arg": f"apply({lam}, x)", "nested": f"apply(\\y: Int => apply(\\z: Int => f1(z), y), x)",
+            "arith": "apply(\\y: Int => f1(y) + 1, x)"}.get(pos, f"apply({lam}, x)")
+    body = []
+    if pos == "init":
+        body = [f"def h := {lam}"]
+        call = "apply(h, x)"
+    if prot == "handled":
+        core = [f"def r := {call} handle", f"    err: {cname(A)} => 0", "return r"]
+        if pos == "init":                                  # the lambda itself sits under the handle as well
+            core = [f"def r := apply({lam}, x) handle", f"    err: {cname(A)} => 0", "return r"]
+            body = []
+    else:
+        core = [f"return {call}"]
+    if pos == "branch":
+        core = [f"if x > {-BIG} then"] + ["    " + l for l in core] + ["return 0"]
+    if pos == "loop":
+        core = [f"for i in 0 .. 1 do", f"    print({call})" if prot != "handled" else "    print(0)"] + core
+    lines = [prelude(tb).split("class C0")[0].rstrip("\n"),
+             "def apply(fn: Int -> Int, x: Int) -> Int => fn(x)",
+             f"def f1(y: Int) -> Int raise [{cname(R)}] => raise {cname(R)}()"]
+    if pos == "toplevel":
+        lines += [f"print(apply({lam}, 1))"]
+        return "\n".join(lines) + "\n"
+    if pos == "method":
+        lines += ["class K1", f"    def g(self, x: Int) -> Int{dec} =>"] + ["        " + l for l in body + core]
+        use = "K1().g(1)"
+    else:
+        lines += [f"def g(x: Int) -> Int{dec} =>"] + ["    " + l for l in body + core]
+        use = "g(1)"
+    if prot == "handled-outer":                            # handled at the CALL of g: does not protect g's body
+        lines += [f"def w := {use} handle", f"    err: {cname(A)} => 0", "print(w)"]
+    else:
+        lines += [f"print({use})"]
+    return "\n".join(lines) + "\n"
+
+
+def lambda_cases(quick, rng):
+    out = []
+    for h in HIERARCHIES:
+        tb = Tables(h)
+        excs = [c for c in tb.ct if tb.is_exc(c)]
+        for R in [c for c in excs if c != 0]:
+            for pos in LAMBDA_POSITIONS:
+                if pos == "toplevel":
+                    out.append((tb, R, pos, "none", 0))
+                    continue
+                out.append((tb, R, pos, "none", 0))
+                for prot in LAMBDA_PROTECTIONS[1:]:
+                    for A in excs:
+                        out.append((tb, R, pos, prot, A))
+    if quick:
+        keep = [c for c in out if c[3] == "none"]
+        rest = [c for c in out if c[3] != "none"]
+        out = keep + rng.sample(rest, min(len(rest), 420))
+    return out
+
+
+def run_lambda_family(ck, rep_cause, quick):
+    import collections
+    cases = lambda_cases(quick, ck.rng)
+    srcs = [render_lambda(*c) for c in cases]
+    resp = transpile_all(srcs)
+    st, py, keep = collections.Counter(), [], []
+    for (tb, R, pos, prot, A), src, r in zip(cases, srcs, resp):
+        iv, msg = impl_verdict(r)
+        guarded = pos == "toplevel" or (prot in ("declared", "handled") and A in tb.ancestors(R))
+        text = f"CAUSE:{{}} SHAPE:lambda[{pos};{prot}]"
+        data = {"lambda_case": [sorted(tb.ct.items()), R, pos, prot, A], "mamba": src, "implementation": iv,
+                "message": msg}
+        if iv == "VAccept":
+            st["accept"] += 1
+            if not guarded:
+                rep_cause(f"accepted although the call of f1 (raise [{cname(R)}]) inside the lambda is neither handled "
+                          f"nor declared by the enclosing function", "unguarded-call-in-lambda",
+                          text.format("unguarded-call-in-lambda"), data)
+            else:
+                py.append(unhex(r[1]).split("\x1e")[0])
+                keep.append((tb, R, pos, prot, A, src))
+        elif iv == "VReject KUnhandled":
+            st["reject-unhandled"] += 1
+            if guarded:
+                rep_cause("rejected as unhandled although the lambda's call is guarded by an ancestor class",
+                          "over-reject-unhandled-lambda", text.format("over-reject-unhandled-lambda"), data)
+        else:
+            st["outside:" + iv] += 1
+    # the accepted ones: the handler really catches (prints 0), a declared raise propagates as R
+    res = run_python(py)
+    wrong = 0
+    for (tb, R, pos, prot, A, src), emitted, (status, msg, out) in zip(keep, py, res):
+        if prot == "handled":
+            ok = status == "ok" and out.strip().split("\n")[-1] == "0"
+        else:
+            ok = status == cname(R)
+        if not ok:
+            wrong += 1
+            rep_cause(f"emitted Python of an accepted lambda case behaves differently: {status} {msg} {out!r}",
+                      "lambda-runtime", f"CAUSE:lambda-runtime SHAPE:lambda[{pos};{prot}]",
+                      {"mamba": src, "emitted": emitted})
+    outside = sum(v for k, v in st.items() if k.startswith("outside"))
+    if outside > len(cases) // 20:
+        ck.broken.append({"kind": "generator", "where": "lambda family: programs rejected for other reasons",
+                          "count": outside, "verdicts": dict(st)})
+    return {"programs": len(cases), "verdicts": dict(st), "python_runs": len(keep), "python_wrong": wrong,
+            "note": "anonymous functions are not part of model/Scope.v: judged by the lexical guard rule and by "
+                    "running the emitted Python"}
